@@ -648,11 +648,13 @@ class Engine:
             out["<error>"] = str(ex)
         return out
 
-    def definedness(self, t, msg):
+    def definedness(self, t, msg, force=False):
         t = zb(t) if not isinstance(t, bool) else z3.BoolVal(t)
         if z3.is_true(t):
             return
         cls = self.cur_contract.definedness if self.cur_contract else "D"
+        if force and cls == "assume":
+            cls = "P"          # shape errors raise in NumPy: never assumed away
         if cls == "assume":
             # this contract does not decide arithmetic definedness (stated in its evidence): assumed, not checked
             self.assumed_defined += 1
@@ -1387,6 +1389,7 @@ class Engine:
 
     def havoc(self, env, names, lc, st, entry):
         s = LoopState(self, env, entry=entry)
+        self._rebound = _rebound_names(st)
         for name in sorted(names):
             if name in lc.havoc:
                 f = lc.havoc[name]
@@ -1413,7 +1416,10 @@ class Engine:
                 return self.fresh_int(name)
             return self.fresh_real(name, maybe_inf=not (isinstance(v.k, int) and v.k == 0))
         if isinstance(v, Arr):
-            shape = tuple(d if isinstance(d, int) else self.fresh_int(name + "_dim", lo=0) for d in v.shape)
+            if name in getattr(self, "_rebound", {name}):
+                shape = tuple(d if isinstance(d, int) else self.fresh_int(name + "_dim", lo=0) for d in v.shape)
+            else:
+                shape = v.shape        # only written in place inside the loop: same buffer shape
             return fresh_symbolic(name, shape, dtype=v.kind, eng=self)
         raise Unsupported("default havoc of %s (%s): give a factory in the loop contract" % (name, type(v).__name__))
 
@@ -1980,6 +1986,22 @@ def _assigned_names(st):
             out.add(n.target.id)
     if isinstance(st, ast.For):
         out |= _target_names(st.target)
+    return out
+
+
+def _rebound_names(st):
+    """names re-bound by a plain assignment (or loop target) somewhere in loop `st`"""
+    out = set()
+    for n in ast.walk(st):
+        if isinstance(n, ast.Assign):
+            for t in n.targets:
+                for x in ast.walk(t):
+                    if isinstance(x, ast.Name) and isinstance(x.ctx, ast.Store):
+                        out.add(x.id)
+        elif isinstance(n, ast.AnnAssign) and isinstance(n.target, ast.Name):
+            out.add(n.target.id)
+        elif isinstance(n, ast.For):
+            out |= _target_names(n.target)
     return out
 
 
